@@ -207,6 +207,27 @@ pub enum Mode {
     Indented,
 }
 
+thread_local! {
+    static OBSERVED: RefCell<Option<String>> = const { RefCell::new(None) };
+}
+
+/// Parsers without user context, with an extra observation of the parsed value (e.g. through the
+/// `PegPosition` trait) made by a function generated next to the grammar
+pub fn run_plain_obs<T: PegParserAdvanced<()> + Debug>(gid: &str, input: &str, with_indented: bool, obs: fn(&T) -> String) -> String {
+    OBSERVED.with(|o| *o.borrow_mut() = None);
+    if let Ok(v) = catch_unwind(AssertUnwindSafe(|| T::parse_advanced::<NoopTracer>(input, &ParseSettings::default(), ()))) {
+        if let Ok(v) = v {
+            let s = catch_unwind(AssertUnwindSafe(|| obs(&v))).unwrap_or_else(|_| String::from("<panic>"));
+            OBSERVED.with(|o| *o.borrow_mut() = Some(s));
+        }
+    }
+    let js = run_plain::<T>(gid, input, with_indented);
+    match OBSERVED.with(|o| o.borrow_mut().take()) {
+        Some(s) => format!("{},\"obs\":{}}}", &js[..js.len() - 1], jstr(&s)),
+        None => js,
+    }
+}
+
 /// Parsers without user context
 pub fn run_plain<T: PegParserAdvanced<()> + Debug>(gid: &str, input: &str, with_indented: bool) -> String {
     run_with(gid, input, with_indented, |mode| match mode {
